@@ -47,8 +47,28 @@ type I interface {
 //«x4»
 type A [3]int
 
+type Failure = error
+
+type AnyAlias = any
+
+type Cmp = comparable
+
+type SliceAlias = []int
+
+type PtrAlias = *S
+
+func UseAliases(f Failure, a AnyAlias, s SliceAlias, p PtrAlias) {
+	_ = f
+	_ = a
+	s[0] = 1
+	p.f = nil
+}
+
+func Constrained[K Cmp](k K) K { return k }
+
 //«x5»
 type S struct {
+	//«x8»
 	e.E
 	f  func()
 	m  map[string]int
@@ -173,7 +193,7 @@ func (s *S) Ptr(o S) {
 }
 `
 
-var c10Alts = []string{" @immutable", " @constructor Gen, New, Ptr", " @testonly", " @packageonly w", " @implements I", " @implements &e.Iface", " @implements nope.X", " @mutable", " @ignore ALL", " plain"}
+var c10Alts = []string{" @immutable", " @constructor Gen, New, Ptr", " @testonly", " @packageonly w", " @implements I", " @implements &e.Iface", " @implements nope.X", " @mutable", " statistics, @mutable on purpose", " @ignore ALL", " plain"}
 
 // ZZC10Stress: a package full of constructs the checkers do not specialise for (generic types and functions, func / array /
 // interface / anonymous struct types, embedded fields, unnamed and blank receivers, labels, method expressions and values,
@@ -184,7 +204,7 @@ func ZZC10Stress1() { c10Stress(1) }
 func ZZC10Stress2() { c10Stress(2) }
 
 func c10Stress(maxNonPlain int) {
-	names := []string{"x1", "x2", "x3", "x4", "x5", "x6", "x7", "y1", "y2", "y3"}
+	names := []string{"x1", "x2", "x3", "x4", "x5", "x6", "x7", "x8", "y1", "y2", "y3"}
 	holes := []nd.Hole{}
 	nonPlain := 0
 	for _, n := range names {
